@@ -76,7 +76,17 @@ struct Pending {
 fn build_fix(dir: &Path, tag: &str, files: Vec<Pending>) -> Result<Fix, String> {
     let path = dir.join(format!("c09-{tag}.mpq"));
     let _ = std::fs::remove_file(&path);
-    let mut b = ArchiveBuilder::new().listfile_option(ListfileOption::Generate);
+    // fixture "U": the archive's (listfile) names only every other member (an external listfile): the others are stored and
+    // readable by name, but no listing mentions them (after C09-r7m2)
+    let lf = if tag == "U" {
+        let lp = dir.join("c09-U.listfile.txt");
+        let txt: String = files.iter().step_by(2).map(|f| format!("{}\r\n", f.name)).collect();
+        std::fs::write(&lp, txt).map_err(|e| e.to_string())?;
+        ListfileOption::External(lp)
+    } else {
+        ListfileOption::Generate
+    };
+    let mut b = ArchiveBuilder::new().listfile_option(lf);
     for f in &files {
         b = match f.enc {
             0 => b.add_file_data_with_options(f.data.clone(), &f.name, f.method, false, 0),
@@ -439,6 +449,15 @@ fn plan(thorough: bool) -> Vec<Spec> {
                     r3 += 1; // shift the window so that all thread counts meet all batch sizes
                 }
             }
+        }
+    }
+    // the archive whose listfile names only half of its members, through every interface that takes names
+    for shape in ["all", "shuffled", "alt2:40", "miss-middle:40"] {
+        for t in some_threads(2) {
+            v.push(Spec { api: Api::Ewc, fix: "U", threads: t, bat: Bat::NA, shape, skip: shape.starts_with("miss"), light: false });
+            v.push(Spec { api: Api::Efp, fix: "U", threads: t, bat: Bat::NA, shape, skip: false, light: false });
+            v.push(Spec { api: Api::Pfp, fix: "U", threads: t, bat: Bat::NA, shape, skip: false, light: false });
+            v.push(Spec { api: Api::Efb, fix: "U", threads: t, bat: Bat::F(5), shape, skip: false, light: false });
         }
     }
     // C. ParallelArchive::extract_files_parallel
@@ -1272,6 +1291,15 @@ fn main() {
     let mut todo: Vec<(String, Vec<Pending>)> = vec![("S".into(), files_small(&mut frng)), ("M".into(), files_many(&mut frng, 1300, "M"))];
     for i in 0..6 {
         todo.push((format!("P{i}"), files_patch(&mut frng, i)));
+    }
+    {
+        // (own generator state: the other fixtures stay what they were)
+        let mut urng = Rng::for_case(run.args.seed, 0xC09, 8);
+        let mut u = files_small(&mut urng);
+        for f in u.iter_mut() {
+            f.name = format!("u\\{}", f.name);
+        }
+        todo.push(("U".into(), u));
     }
     if thorough {
         todo.push(("L".into(), files_many(&mut frng, 5200, "L")));
